@@ -57,6 +57,9 @@ def wrap_conformance(run):
             ms.add(k * 2 * N + d)
             ms.add(k * 2 * N + N + d)
             ms.add(k * 2 * N - N + d)
+    for k in list(range(300, 330)) + list(range(-330, -300)) + list(range(4000, 4030)) + list(range(-4030, -4000)) + list(range(100000, 100010)):
+        ms.add(k * 2 * N + N)                          # many large odd multiples of pi (whatever the seed): the rounding of the wrap shows there
+        ms.add(k * 2 * N + N - 1)
     rnd = random.Random(run.seed)
     ms |= {rnd.randint(-57295780, 57295780) for _ in range(400)}
     for m in sorted(ms):
